@@ -115,7 +115,7 @@ func one(c *fw.Ctx, key string, p prog) {
 			got := run.Bytecode(d, o)
 			c.AddEval(1)
 			if obsKey(got) != obsKey(want) {
-				if obsKey(run.Bytecode(d, o)) != obsKey(got) || obsKey(run.Bytecode(bc, o)) != obsKey(want) {
+				if obsKey(run.Bytecode(d, o)) == obsKey(run.Bytecode(bc, o)) { // a second pair of runs agrees
 					c.Infra("unstable outcome for %s", p.src)
 					return
 				}
